@@ -222,6 +222,35 @@ def s02_4_identity(ctx, P):
         miss = [n for n in need if not any(x.endswith(n) for x in names)]
         ctx.check(P + ':S02-4:match_identity-body', 'R-who', 'match_identity compares issuer subpackets with the key\'s own key id and fingerprint',
                   not miss, function=b.path, missing=miss)
+        # "no issuer subpacket at all => candidate" is the only unconditional `true`: a constant `true` (one that is not the verdict of
+        # a comparison) is returned only behind emptiness tests of BOTH lists - with only the key-id list tested, a signature that
+        # names another key by fingerprint (every v6 signature) matches any key
+        consts_true = [i for i, k, st in b.stmts(lambda st: st['d']['l'] == 0 and not st['d']['pr'] and st['r']['k'] == 'use' and 'k' in st['r']['o'][0] and st['r']['o'][0]['k'].get('v') in (True, 1))]
+        dom = b.dominators()
+        bad = []
+        for i in consts_true:
+            # a constant true on the `found` edge of an any() / comparison is a verdict, not the default
+            ctrl = [g for g in dom.get(i, ()) if g != i and b.blocks[g]['t']['k'] == 'switch']
+            last = max(ctrl) if ctrl else None
+            if last is not None and has_origin(b.switch_origins(last), r'call:.*Iterator::any$|call:.*PartialEq::eq$'):
+                continue
+            tests = set()
+            for g in ctrl:
+                og = b.switch_origins(g)
+                # the test counts only if it SELECTS: one of its edges leads to this default, the other one does not
+                leads = [j for j in set(j for j, _ in b.succ(g)) if i in b.reach_from([j], removed=frozenset([g]))]
+                if len(leads) != 1:
+                    continue
+                if has_origin(og, r'call:.*is_empty$'):
+                    if has_origin(og, r'call:.*issuer_key_id$'):
+                        tests.add('key-id')
+                    if has_origin(og, r'call:.*issuer_fingerprint$'):
+                        tests.add('fingerprint')
+            if tests != {'key-id', 'fingerprint'}:
+                bad.append((i, sorted(tests)))
+        ctx.check(P + ':S02-4:match_identity-default-needs-both-empty', 'R-dom', 'match_identity answers `true` without a comparison only when neither an issuer key id nor an issuer fingerprint subpacket is present',
+                  bool(consts_true) and not bad, function=b.path, site=site(b, bad[0][0]) if bad else None,
+                  missing=None if not bad else 'the default `true` at %s is guarded by emptiness tests of %s only: a signature whose other issuer subpacket names a different key is taken for a match' % (site(b, bad[0][0]), bad[0][1]))
 
 
 def s15_4_version_alignment_verify(ctx, P):
@@ -908,3 +937,30 @@ def hash_dispatch_tables_agree(ctx, P):
                       not diff, function=q, table={v: fs[q][v][-40:] for v in sorted(fs[q])},
                       missing=None if not diff else 'digest type per variant differs (%s vs %s): %s' % (names[0].split('::')[-1], q.split('::')[-1], diff))
     ctx.floor(P + ':S06-10:floor', 'sibling hash dispatch tables', n, 1)
+
+
+def onepass_match_depends_on_header_fields_only(ctx, P):
+    """A one-pass header announces type, hash algorithm, public-key algorithm, (v6) salt and the issuer of the signature that follows.
+    `OnePassSignature::matches` decides whether the trailing signature is the announced one; a signer is free to put whatever
+    subpackets it likes into that signature (an IssuerFingerprint subpacket is optional).  If the match looks INTO the subpacket areas,
+    a signature that the library's own builder makes with a caller-chosen subpacket list is refused by the library's own reader.  No
+    rejecting branch of `matches` derives from the subpacket areas or from the accessors that search them."""
+    b = ctx.body('packet::one_pass_signature::OnePassSignature::matches')
+    if b is None:
+        ctx.missing(P + ':S06-11:onepass-match-no-subpackets', 'OnePassSignature::matches not found')
+        return
+    falses = [i for i, k, st in b.stmts(lambda st: st['d']['l'] == 0 and not st['d']['pr'] and st['r']['k'] == 'use' and 'k' in st['r']['o'][0] and st['r']['o'][0]['k'].get('v') in (False, 0))]
+    bad = []
+    SUB = r'field:SignatureConfig\.(hashed|unhashed)_subpackets$|call:.*SignatureConfig::(issuer\w*|hashed_subpackets|unhashed_subpackets|created|\w*subpacket\w*)$'
+    for g, _ in guard_switches(b, [x for x in b.returns()], []):
+        og = b.switch_origins(g)
+        if has_origin(og, SUB):
+            bad.append(g)
+    # closures of matches (`.any(|fp| ..)`) are part of it
+    for c in ctx.f.closures_of(b.path):
+        cb = ctx.wrap(c)
+        pass
+    calls_sub = [i for i, t in b.calls(r'SignatureConfig::(issuer\w*|hashed_subpackets|unhashed_subpackets)$')]
+    ctx.check(P + ':S06-11:onepass-match-no-subpackets', 'R-who', 'OnePassSignature::matches compares header fields with signature fields only, never with the (optional) contents of the subpacket areas',
+              not bad and not calls_sub and bool(falses), function=b.path, site=site(b, (bad or calls_sub)[0]) if (bad or calls_sub) else None,
+              missing=None if not (bad or calls_sub) else 'the match reads the subpacket areas at %s: a signature without that optional subpacket (caller-defined subpacket list) is refused by the inline reader' % site(b, (bad or calls_sub)[0]))
